@@ -20,6 +20,44 @@ from report import RuleResult
 HERE = os.path.dirname(os.path.abspath(__file__))
 
 
+def _has_real_part_guard(F, root):
+    """the function (or one of its closures) branches on a comparison / predicate of a real part: re() ... == / < const, is_nan()"""
+    from cfg import Defs
+    from facts import callee
+    for b in F.bodies:
+        if not (b.path == root or b.path.startswith(root + "::{closure")):
+            continue
+        defs = Defs(b)
+        for blk in b.blocks:
+            t = blk["term"]
+            if t["k"] != "switch" or t["op"].get("k") not in ("copy", "move"):
+                continue
+            work = [t["op"]["place"]["l"]]
+            seen = set()
+            while work and len(seen) < 60:
+                l = work.pop()
+                if l in seen:
+                    continue
+                seen.add(l)
+                for d in defs.of(l):
+                    if d[0] == "call":
+                        nm = callee(d[2])[2]
+                        if nm in ("re", "is_nan"):
+                            return True
+                        for a in d[2]["args"]:
+                            if a.get("k") in ("copy", "move"):
+                                work.append(a["place"]["l"])
+                    else:
+                        rv = d[4]
+                        ops = [rv["op"]] if rv["k"] in ("use", "cast") else [rv["a"], rv["b"]] if rv["k"] == "binop" else [rv["a"]] if rv["k"] == "unop" else []
+                        if rv["k"] == "ref":
+                            work.append(rv["place"]["l"])
+                        for o in ops:
+                            if o.get("k") in ("copy", "move"):
+                                work.append(o["place"]["l"])
+    return False
+
+
 def run(F):
     r = RuleResult("R36", "ZERO-DENSITY: no unguarded singular operation on a quantity that vanishes with the density")
     with open(os.path.join(HERE, "..", "tables", "r36.toml"), "rb") as f:
@@ -52,8 +90,16 @@ def run(F):
     for (root, kind), sites in sorted(seen.items()):
         rows = [t for t in table if root.endswith(t["fn"]) and t["kind"] == kind]
         iid = "singular|%s|%s" % (root, kind)
-        if rows and len(sites) <= rows[0].get("count", 1):
+        guard_ok = True
+        if rows and rows[0].get("requires_guard"):
+            guard_ok = _has_real_part_guard(F, root)
+        if rows and len(sites) <= rows[0].get("count", 1) and guard_ok:
             r.inst(iid, sites[0][0], "exempt", reason=rows[0]["why"], sites=len(sites))
+        elif rows and not guard_ok:
+            r.inst(iid, sites[-1][0], "violation", sites=len(sites))
+            r.fail(iid + "|guard-lost", sites[-1][0],
+                   "%s: the reviewed singular operation (%s a quantity vanishing with the density) is no longer protected by a branch on the real part "
+                   "(`x.re() == 0.0` / `is_nan()`): the virial coefficients are NaN again" % (root, sites[-1][2]))
         else:
             r.inst(iid, sites[-1][0], "violation", sites=len(sites))
             r.fail(iid, sites[-1][0],
